@@ -65,7 +65,7 @@ class Check:
         self.solver_time = 0.0
         self.exhaustive = None
         self.extra = {}
-        kf = ROOT / 'known_findings.json'
+        kf = Path(os.environ.get('VERIF_KNOWN_FINDINGS') or (ROOT / 'known_findings.json'))
         self.known = [k for k in (json.loads(kf.read_text()) if kf.exists() else []) if k.get('property') == pid]
 
     # ------------------------------------------------------------------ bookkeeping
